@@ -25,8 +25,9 @@ C01Failing(r) ==
         \/ c = "OneEntryPerSection" /\ r.outcome = "doc" /\ Len(r.keys) # 2 + Len(r.abs.secs)
         \/ c = "Names" /\ r.outcome = "doc" /\ r.keys # ExpectedKeys(r.abs)
         \/ c = "Compositional" /\ r.outcome = "doc" /\ r.digests # r.alone
-        \/ c = "Cursor" /\ r.outcome = "doc" /\ r.final_index # Len(r.bytes)
-        \/ c = "Boundaries" /\ r.outcome = "doc"
+        \* (a decode made by the tool as a separate process shows its document, not its cursor)
+        \/ c = "Cursor" /\ r.outcome = "doc" /\ r.cursor_seen /\ r.final_index # Len(r.bytes)
+        \/ c = "Boundaries" /\ r.outcome = "doc" /\ r.cursor_seen
               /\ r.boundaries # [k \in 1..Len(r.abs.secs) |->
                                     <<Boundaries(r.abs)[k], Boundaries(r.abs)[k + 1]>>]
         \/ c = "NothingOnStdout" /\ r.stdout_len # 0 }
